@@ -53,13 +53,15 @@ VARIABLES
   started,  \* the worker has been started at least once (its context listener exists)
   overlap,  \* two state-changing control calls have been in progress at the same time (their combined effect is unspecified)
   pcancel,  \* the user's context has been cancelled (the listener may stop the worker at any later moment)
+  tune,     \* [n, old]: the limit of the last TunePool that has returned alone (0: none / uncertain) and the jobs dispatched before it
   consOf,   \* job -> consumer that ran it (distributed queues)
   ad        \* adapter bookkeeping
 
 vars == <<l, hdr, E, sub, addCall, addRet, enters, exits, enterAt, exitAt, deqd, closeStarted, closeNil, mp,
           waitRet, lastRes, rank, pend, R, ctlPending, ws, epoch, pauseStarts, concNow, concMax, concSince,
-          qclosed, lastExitAt, lastDeqAt, rr, rrPrev, crashed, raced, overlap, pcancel, ref, started, consOf, ad>>
+          qclosed, lastExitAt, lastDeqAt, rr, rrPrev, crashed, raced, overlap, pcancel, ref, started, tune, consOf, ad>>
 
+NoTune == [n |-> 0, old |-> {}]
 NoCall == [op |-> "none", job |-> 0, qi |-> 0, b |-> 0, n |-> 0, at |-> 0, snap |-> {}, clean |-> FALSE, entered |-> {},
            solo |-> FALSE, ref |-> "unknown", same |-> FALSE, rankFloor |-> -1, closedBefore |-> FALSE, qclosedBefore |-> FALSE, waitedBefore |-> FALSE]
 NoHdr == [ev |-> "reset", ep |-> "", mode |-> "gated", wk |-> "plain", conc |-> 1, ncpu |-> 1, queues |-> <<>>, jobs |-> <<>>,
@@ -118,7 +120,7 @@ Blank(h) ==
   /\ concSince' = [j \in DOMAIN sub' |-> 0] /\ consOf' = [j \in DOMAIN sub' |-> 0]
   /\ qclosed' = [q \in DOMAIN h.queues |-> "open"]
   /\ lastExitAt' = 0 /\ lastDeqAt' = 0 /\ rr' = 1 /\ rrPrev' = 1
-  /\ crashed' = FALSE /\ raced' = FALSE /\ pcancel' = FALSE /\ overlap' = FALSE /\ ref' = (IF h.nobind THEN "initiated" ELSE "running") /\ started' = ~h.nobind
+  /\ crashed' = FALSE /\ raced' = FALSE /\ pcancel' = FALSE /\ overlap' = FALSE /\ ref' = (IF h.nobind THEN "initiated" ELSE "running") /\ started' = ~h.nobind /\ tune' = NoTune
   /\ ad' = [pending |-> <<>>, unacked |-> {}, acked |-> {}, issued |-> {}, badack |-> 0, earlyack |-> 0, enq |-> {}, lost |-> {}, purged |-> {}, notified |-> 0, unann |-> {}]
 
 Init ==
@@ -127,7 +129,7 @@ Init ==
   /\ deqd = <<>> /\ closeStarted = <<>> /\ closeNil = <<>> /\ mp = <<>> /\ waitRet = <<>> /\ lastRes = <<>> /\ rank = <<>>
   /\ pend = <<>> /\ R = NoCall /\ ctlPending = 0 /\ ws = "initiated" /\ epoch = "open" /\ pauseStarts = 0
   /\ concNow = {1} /\ concMax = 1 /\ concSince = <<>> /\ consOf = <<>> /\ qclosed = <<>> /\ lastExitAt = 0 /\ lastDeqAt = 0 /\ rr = 1 /\ rrPrev = 1
-  /\ crashed = FALSE /\ raced = FALSE /\ pcancel = FALSE /\ overlap = FALSE /\ ref = "initiated" /\ started = FALSE
+  /\ crashed = FALSE /\ raced = FALSE /\ pcancel = FALSE /\ overlap = FALSE /\ ref = "initiated" /\ started = FALSE /\ tune = NoTune
   /\ ad = [pending |-> <<>>, unacked |-> {}, acked |-> {}, issued |-> {}, badack |-> 0, earlyack |-> 0, enq |-> {}, lost |-> {}, purged |-> {}, notified |-> 0, unann |-> {}]
 
 -----------------------------------------------------------------------------
@@ -135,7 +137,8 @@ Init ==
 
 U(v) == UNCHANGED v
 jobVars == <<sub, addCall, addRet, enters, exits, enterAt, exitAt, deqd, closeStarted, closeNil, mp, waitRet, lastRes, rank, concSince, consOf>>
-ctlVars == <<pend, R, ctlPending, ws, epoch, pauseStarts, concNow, concMax, qclosed, pcancel, overlap, ref, started>>
+ctlVars == <<pend, R, ctlPending, ws, epoch, pauseStarts, concNow, concMax, qclosed, pcancel, overlap, ref, started, tune>>
+Retune == {"TunePool", "Restart", "Stop", "WaitAndStop", "Bind"}      \* calls after which the effective limit / the set of dispatchers is uncertain
 miscVars == <<lastExitAt, lastDeqAt, rr, rrPrev, crashed, raced, ad>>
 
 \* jobs submitted by a call: Add -> {job}; AddAll -> items
@@ -182,6 +185,7 @@ OnCall(e) ==
   /\ pauseStarts' = IF e.op \in {"Resume", "Restart"} THEN 0 ELSE pauseStarts
   /\ qclosed' = [q \in Queues |-> IF e.op = "QClose" /\ e.qi = q /\ qclosed[q] = "open" THEN "closing" ELSE qclosed[q]]
   /\ pcancel' = (pcancel \/ (e.op = "CancelCtx" /\ hdr.ctx))
+  /\ tune' = IF e.op \in Retune THEN NoTune ELSE tune
   /\ U(<<ref, started>>)
   \* Stop / Restart / Bind / context cancellation overlapping another state-changing call: the combined effect of such
   \* concurrent lifecycle calls is specified nowhere (the properties quantify over call sequences), nothing is concluded afterwards
@@ -232,6 +236,11 @@ OnRet(e) ==
   /\ qclosed' = [q \in Queues |-> IF pc.op = "QClose" /\ pc.qi = q THEN "closed" ELSE qclosed[q]]
   /\ ref' = IF pc.op \in ControlOps /\ pc.op # "CancelCtx" THEN (IF pc.ref = "unknown" THEN "unknown" ELSE RefNext(pc.ref, pc.op)) ELSE ref
   /\ started' = (started \/ (pc.op \in {"Bind", "Restart"}) \/ (pc.op = "Resume" /\ e.res = "nil"))
+  \* a TunePool that has returned while no other call that changes the limit or the dispatchers was in progress fixes the limit;
+  \* the jobs dispatched before it are those seen leaving their queue and not yet finished
+  /\ tune' = IF pc.op = "TunePool" /\ e.res = "nil" /\ (\A c \in Clients : c = e.p \/ pend[c].op \notin Retune)
+               THEN [n |-> NormConc(pc.n), old |-> {j \in Jobs : deqd[j] /\ exits[j] = 0}]
+               ELSE tune
   /\ U(<<addCall, enters, exits, enterAt, exitAt, deqd, closeStarted, mp, concSince, concMax, pcancel, overlap, consOf>>)
   /\ U(miscVars)
 
@@ -243,7 +252,7 @@ OnEnter(e) ==
        ELSE U(<<enters, enterAt, consOf>>)
   /\ pauseStarts' = IF epoch = "pause" THEN pauseStarts + 1 ELSE pauseStarts
   /\ U(<<sub, addCall, addRet, exits, exitAt, deqd, closeStarted, closeNil, mp, waitRet, lastRes, rank, concSince>>)
-  /\ U(<<pend, R, ctlPending, ws, epoch, concNow, concMax, qclosed, pcancel, overlap, ref, started>>)
+  /\ U(<<pend, R, ctlPending, ws, epoch, concNow, concMax, qclosed, pcancel, overlap, ref, started, tune>>)
   /\ U(miscVars)
 
 OnExit(e) ==
@@ -337,6 +346,9 @@ C01_AtRest == RunningAtRest => \A j \in Jobs : Accepted(j) /\ ~Excused(j) => ent
 ---- \* C02 bounded parallelism
 C02_Bound == Inflight # {} => Cardinality(Inflight) <= Max({concSince[j] : j \in Inflight})
 C02_Peak == Quiescent => E.peak <= concMax
+\* once TunePool(n) has returned and the jobs dispatched before it have finished, at most n jobs run simultaneously
+\* (gated traces: the dispatches are visible as dequeues)
+C02_TuneBound == Gated /\ tune.n > 0 /\ (\A j \in tune.old : exits[j] >= 1) => Cardinality(Inflight) <= tune.n
 
 ---- \* C03 progress (finite-trace form: at rest nothing accepted is left, nobody sleeps)
 \* entries put into an adapter behind the worker's back and not announced since (see OnAd)
